@@ -22,6 +22,7 @@ RULE = (
     "second mode lets the same jobs run freely with sys.setswitchinterval(1e-6); a third ('cold') runs the scheduled jobs in a fresh interpreter BEFORE anything was parsed there, so that the shared ANTLR DFA caches are built under thread switches, and computes the sequential results afterwards. A fourth kind of case ('lockstep') runs the same input in 2-4 threads switched round robin every 1-6 yield points (first-use races). Yield points are all lines of the explorerscript package except the generated parser. Oracle: every job's result (ops, "
     "offsets, tables, text, serialized source maps) equals its result when run alone beforehand; no job raises. "
     "Non-trivial = the schedule switched threads >= 20 times while >= 2 jobs were inside traced code; distinct by hash."
+    " Further job kinds: scripts of 200-420 routines, generated multi-file workspaces compiled from disk. Further case families: 'inside' (one job parked inside shared-state code for the whole run of another) and 'shared libraries' (two main files of one project that import the same chain of 2-4 library files; pause / drawn schedule / free-running)."
 )
 ASSUMPTIONS = [
     "interleavings are at line (partly opcode) granularity under the GIL; races inside C extensions (igraph) are not explored",
